@@ -81,11 +81,12 @@ class Conn:
 
 class Session:
     def __init__(self, binary, config=None, args=("-f",), seed=0, creds=None, fill_byte=None, limits=None,
-                 strict_close=True, timeout=60):
+                 strict_close=True, timeout=60, reuse=False):
         self.cfg = config or {}
         self.rng = random.Random(seed)
         self.seed = seed
-        self.sim = Sim(binary, args=args, fill_byte=fill_byte, timeout=timeout)
+        self.sim = Sim(binary, args=args, fill_byte=fill_byte, timeout=timeout, reuse=reuse)
+        self.reuse = reuse
         self.conns = {}
         self.by_fd = {}
         self.elements = {}
@@ -208,7 +209,14 @@ class Session:
             msg.update(extra)
         p = self._register(c, msg, hostile)
         if send:
-            self.send_payload(c, json.dumps(msg, ensure_ascii=self.rng.random() < 0.5).encode(), chunks)
+            ea = self.rng.random() < 0.5
+            text = json.dumps(msg, ensure_ascii=False)
+            if any(0xDC80 <= ord(ch) <= 0xDCFF for ch in text):
+                # bytes that are not UTF-8 (kept as escaped surrogates inside the driver) go out as the raw bytes they stand for
+                data = text.encode("utf-8", "surrogateescape")
+            else:
+                data = json.dumps(msg, ensure_ascii=ea).encode()
+            self.send_payload(c, data, chunks)
         self.stats["req_" + str(method)[:12]] += 1
         return p
 
@@ -365,7 +373,10 @@ class Session:
             def eff():
                 self.elements[path] = Elem(path, c, is_state, pr.get("value"), pr.get("fetchOnly") is True,
                                            pr.get("timeout"), acc or {})
-            # a timeout that nanoseconds cannot represent may be refused or accepted; the model follows the answer
+            # a timeout that nanoseconds cannot represent may be refused or accepted; the model follows the answer. The same holds
+            # for a path that is not UTF-8 (no well-formed JSON text): the daemon may store it as it is or refuse it
+            if any(0xDC80 <= ord(ch) <= 0xDCFF for ch in path):
+                tok = None
             return ("ok" if tok else "any"), eff
         if m == "remove":
             e = self.elements.get(path) if isinstance(path, str) else None
